@@ -139,6 +139,21 @@ func loadKnown(verifDir string) *knownFindings {
 
 // ---- finishing: verdict, evidence, reports ----
 
+// Unlisted counts the violated / undecided obligations that the known-findings file does not list.
+func (c *Check) Unlisted(verifDir string) int {
+	known := loadKnown(verifDir)
+	n := 0
+	for _, o := range c.Obs {
+		if o.Status == "VIOLATED" || o.Status == "UNDECIDED" {
+			if _, ok := known.findings[c.ID+"|"+o.Key()]; ok && o.Status == "VIOLATED" {
+				continue
+			}
+			n++
+		}
+	}
+	return n
+}
+
 func (c *Check) Finish(verifDir string, selftest map[string]any) int {
 	known := loadKnown(verifDir)
 	held, viol, und := 0, 0, 0
